@@ -26,6 +26,8 @@ def showStr (s : Transport.Str) : String := if s.isEmpty then "-" else String.of
 def parseOutcome (s : String) : Option Transport.Outcome :=
   if s = "nt" then some (.neterr true)
   else if s = "np" then some (.neterr false)
+  else if s.startsWith "f" && s.endsWith "t" then ((s.drop 1).dropRight 1).toNat?.map (.srcFault · true)
+  else if s.startsWith "f" && s.endsWith "p" then ((s.drop 1).dropRight 1).toNat?.map (.srcFault · false)
   else s.toNat?.map .status
 
 def parseScript (s : String) : Option (List Transport.Outcome) :=
@@ -34,16 +36,17 @@ def parseScript (s : String) : Option (List Transport.Outcome) :=
 def strOfHex (h : String) : Option Transport.Str :=
   (fromHex h).map fun b => b.map fun c => Char.ofNat c.toNat
 
-/-- attempts are printed as `s<server>:<content-encoding>:<full|x>`; `x` marks attempts that
-    never reached a server (transport error) -/
+/-- attempts are printed as `s<server>:<content-encoding>:<full|x>`; `x` marks attempts in which no
+    cleanly ended body reached a handler (transport error, source fault) -/
 def showAttempts (tr : List Transport.Attempt) (script : List Transport.Outcome) (file : Bytes) : String :=
   let rec go : List Transport.Attempt → List Transport.Outcome → List String
     | [], _ => []
     | a :: as, sc =>
       let o := sc.headD (.status 200)
-      let body := match o with
-        | .neterr _ => "x"
-        | .status _ => if a.offered = file then "full" else "PARTIAL"
+      let body := match (Transport.roundTrip a.enc a.offered o).2 with
+        | .none => "x"
+        | .aborted => "x"
+        | .complete b => if b = file then "full" else "PARTIAL"
       s!"s{a.server}:{showStr a.enc}:{body}" :: go as sc.tail
   let l := go tr script
   if l.isEmpty then "-" else ",".intercalate l
@@ -118,6 +121,10 @@ def handle : List String → String
     match strOfHex ahex, retries.toInt?, n.toNat?, parseScript script, size.toNat? with
     | some a, some r, some n, some sc, some sz => runTransport a r n sc sz
     | _, _, _, _, _ => "bad-op"
+  | ["xfault", ahex, retries, n, script, size, _seed] =>
+    match strOfHex ahex, retries.toInt?, n.toNat?, parseScript script, size.toNat? with
+    | some a, some r, some n, some sc, some sz => runTransport a r n sc sz
+    | _, _, _, _, _ => "bad-op"
   | ["xdown", k, n, ahex, size, _seed] =>
     match k.toNat?, n.toNat?, strOfHex ahex, size.toNat? with
     | some k, some n, some a, some sz => runTransport a 0 n (List.replicate k (.neterr true)) sz
@@ -126,6 +133,8 @@ def handle : List String → String
   | "frag" :: _ => "ok same #oracle"
   | "transform" :: _ => "ok same #oracle"
   | "xlinger" :: _ => "ok same #oracle"
+  | "xresp" :: _ => "ok error #oracle"
+  | "xraw" :: _ => "ok refused #oracle"
   | "jarrepro" :: _ => "ok distinct=1 #oracle"
   | _ => "bad-op"
 
